@@ -241,7 +241,9 @@ func (h *Host) handleBeforeMessageStored(msg event.InboundMessage) *event.Inboun
 
 // Common preparation for calling Lua functions.
 func (h *Host) prepareInbucketFuncCall(funcName string) (logger zerolog.Logger, ls *lua.LState, ib *Inbucket, ok bool) {
-	logger = h.logContext.Str("event", funcName).Logger()
+	// Derive from a copy: zerolog contexts built from one shared Context append into the same
+	// buffer, which races when listeners run concurrently.
+	logger = h.logContext.Logger().With().Str("event", funcName).Logger()
 
 	ls, err := h.pool.getState()
 	if err != nil {
